@@ -29,7 +29,7 @@ CHECK = {
     "explanation": "One handler step from an arbitrary state, volatile mode (no durable queue). "
                    "vC43_producer: the real (*producerController).Receive (handleRegisterConsumer, handleRequest, handleAck, handleProduced, handleStoredAck, handleTick, handleTerminated, fromRegisteredConsumer, advanceConfirmed, sendConfirmation, resendUnconfirmed, allowNextRequest, sendRequestNext, startStore, completeStore, replyStored, startAccept, completeAccept, emitSequenced, terminate and the protocol constructors) runs for one arbitrary message "
                    "(any of the 7 kinds, any sender among registered consumer controller / producer / stranger, current or stale session, nonce, token, any int64 confirmation and demand values the commands' validate() accepts) from an arbitrary state with 0 <= confirmedSeq <= currentSeq, unconfirmed = the 0..3 contiguous sequences (confirmedSeq, currentSeq], any demandUpTo, handshake Idle / Credit / StoredAck, registered or not. "
-                   "Asserted at the moment of every emission (the controller's tell helper is substituted by the checker): seq <= demandUpTo, 1 <= seq <= currentSeq, destination = the registered consumer controller. After the step: demandUpTo changed only to the RequestUpToSeq of a Request authenticated for the current registration/session/nonce with confirmed <= currentSeq and upTo in [confirmed, confirmed+MaxReliableFlowControlWindow], or was reset to currentSeq by a (de)registration; "
+                   "Asserted at the moment of every emission (the controller's tell helper is substituted by the checker): seq <= demandUpTo, 1 <= seq <= currentSeq, destination = the registered consumer controller. After the step: demandUpTo changed only to the RequestUpToSeq of a Request authenticated for the current registration/session/nonce with confirmed <= currentSeq and upTo in [confirmed, confirmed+MaxReliableFlowControlWindow], or was reset to currentSeq by a (de)registration; a verified registration by a new controller OR by the same controller under a fresh nonce always starts a new generation (demandUpTo = currentSeq, controller and nonce recorded), while the idempotent same-controller/same-nonce ping keeps the demand; "
                    "credit (RequestNext) is opened only while currentSeq < demandUpTo; the representation invariant is preserved; confirmedSeq follows authenticated confirmations only. "
                    "vC43_consumer: the real (*consumerController).Receive (handleRegistrationAck, handleSequencedMessage, handleConfirmed, handleTick, handleTerminated, register, deliver/deliverFrame, bufferMessage, drain, assemble, scanChunkRun, purgeBuffer, gapOpen, chunkRunComplete, refreshRunLast, batchConfirmation, sendRequest, sendGapRequest, solicitGapRequest, sendAck, failWedgedChunkRun) runs for one arbitrary message (whole or chunked SequencedMessage with any sequence and flags, RegistrationAck, Confirmed, tick, Terminated; any sender) "
                    "from an arbitrary state satisfying I_c (expectedSeq = confirmedSeq+1, requestUpToSeq <= confirmedSeq+window, buffer strictly ascending within [expectedSeq, requestUpToSeq], len(buffer) <= window; window 1..4, buffer entries whole or chunk with any flags, in-flight delivery or not). Asserted: len(buffer) <= window, I_c preserved, every Request grants exactly confirmedSeq+window and carries the current watermark. "
